@@ -306,6 +306,18 @@ func genC17(tier, out string, sum *Summary) {
 			}
 		}
 	}
+	// ".[*]" (a one-element multi-select of "*") directly after a projection: the same as piping into a new projection
+	for _, pr := range [][2]string{{"x[*].[*]", "x[*] | [*].[*]"}, {"x[].[*]", "x[] | [*].[*]"}, {"x[0:3].[*]", "x[0:3] | [*].[*]"}, {"x[?@ || !@].[*]", "x[?@ || !@] | [*].[*]"}, {"o.*.[*]", "o.* | [*].[*]"}, {"x[*].[*]", "x[*].[@.*]"},
+		{"x[*].[ *]", "x[*].[*]"}, {"x[*].[*][0]", "x[*] | [*].[*][0]"}, {"[*].[*]", "@[*] | [*].[*]"}, {"x[*].[*].[*]", "x[*] | [*].[*] | [*].[*]"}} {
+		for _, d := range []string{`{"x": [{"a": "p"}, null, {"b": "q"}], "o": {"m": {"a": 1}, "n": null}}`, `{"x": [[1], {"a": [2]}, "s", 3, null], "o": {"k": [1]}}`, `{"x": [], "o": {}}`, `{"x": null}`, `[{"a": 1}, null, {"b": {"c": 2}}]`} {
+			doc := jsonDoc(d)
+			ol, or_ := search(pr[0], doc), search(pr[1], doc)
+			c.sum.count("spelled-identities")
+			if !sameObs(ol, or_, true) {
+				c.sum.direct("identity spelled", pr[0], doc, fmt.Sprintf("%q gives %s but %q gives %s", pr[0], describe(ol), pr[1], describe(or_)))
+			}
+		}
+	}
 	c.sh.Flush()
 	sum.Cases = c.sh.total
 	sum.Shards = c.sh.files
